@@ -39,9 +39,7 @@ func (h *NFSProcedureHandler) handleRemove(body io.Reader, reply *RPCReply, auth
 		return nfsErrorWithWcc(reply, NFSERR_STALE), nil
 	}
 
-	node.mu.RLock()
-	isDir := node.attrs.Mode&os.ModeDir != 0
-	node.mu.RUnlock()
+	isDir := h.currentMode(node)&os.ModeDir != 0
 
 	if !isDir {
 		return nfsErrorWithWcc(reply, NFSERR_NOTDIR), nil
@@ -120,9 +118,7 @@ func (h *NFSProcedureHandler) handleRmdir(body io.Reader, reply *RPCReply, authC
 		return nfsErrorWithWcc(reply, NFSERR_STALE), nil
 	}
 
-	node.mu.RLock()
-	isDir := node.attrs.Mode&os.ModeDir != 0
-	node.mu.RUnlock()
+	isDir := h.currentMode(node)&os.ModeDir != 0
 
 	if !isDir {
 		return nfsErrorWithWcc(reply, NFSERR_NOTDIR), nil
@@ -257,10 +253,7 @@ func (h *NFSProcedureHandler) handleRename(body io.Reader, reply *RPCReply, auth
 
 	// Both handles must name directories.
 	for _, d := range []*NFSNode{srcDir, dstDir} {
-		d.mu.RLock()
-		isDir := d.attrs != nil && d.attrs.Mode&os.ModeDir != 0
-		d.mu.RUnlock()
-		if !isDir {
+		if h.currentMode(d)&os.ModeDir == 0 {
 			return nfsErrorWithDoubleWcc(reply, NFSERR_NOTDIR), nil
 		}
 	}
